@@ -8,14 +8,16 @@ and the edge likelihood `lik e k t` (edge `e`, parent at grid index `k`, child a
 `ops` is (`*`,`/`) in linear and (`+`,`-`) in logarithmic probability space.
 
 Hypotheses on the edge order (`ValidOrder`), both decidable and evaluated on every generated input
-by the driver: the edges of one child are adjacent, and no edge's child is the parent of itself or
-of an earlier edge (parents are assigned before they are read).  `Props/C11` proves that the sort
+by the driver (`validOrderB`, sound by `validOrder_of_test`): the edges of one child are adjacent,
+and no edge's child is the parent of itself or of an earlier edge (parents are assigned before they
+are read).  `Props/C11` proves that the sort
 key of `edges_by_child_then_parent_desc` produces such an order for every valid tree sequence.
 -/
 import Mathlib.Algebra.Order.Field.Basic
 import Mathlib.Algebra.Order.Group.Defs
 import Mathlib.Tactic.Positivity
 import TsdateVerif.Proofs.Maximize
+import TsdateVerif.Proofs.MaximizeBot
 
 namespace Tsdate.C13
 open Tsdate Tsdate.Maximize
@@ -211,6 +213,32 @@ theorem max_rule_log (inp : Inp α) (es : List MEdge)
   exact argmax_isFirst _ hne
 
 end Log
+
+/-- the decidable test the driver evaluates on every real input implies the hypothesis of the
+theorems -/
+theorem validOrder_of_test (es : List MEdge) (h : validOrderB es = true) : ValidOrder es :=
+  ⟨(validOrderB_sound es h).1, (validOrderB_sound es h).2⟩
+
+section LogBot
+variable {β : Type} [AddCommGroup β] [LinearOrder β] [IsOrderedAddMonoid β]
+
+/-- **The documented rule, logarithmic space with `-inf`** (`⊥ : WithBot β` is `log 0`; inside rows
+and likelihoods may contain it): the assigned index is the first maximum of
+`Σ_edges loglik_e(parent index, t) + inside[child][t]` over `t ≤ min parent index`, provided no
+standardising constant is `-inf` (every slice of every edge has a finite log-likelihood). -/
+theorem max_rule_log_bot (inp : Inp (WithBot β)) (es : List MEdge)
+    (hv : ValidOrder es) (hr : ∀ e ∈ es, e.c < inp.n)
+    (e0 : MEdge) (rest : List MEdge) (hg : (e0 :: rest) ∈ Order.runsBy (·.c) es)
+    (hfix : inp.fixed e0.c = false)
+    (hfin : ∀ m ∈ groupConsts inp (aget (maximize logOpsBot inp es)) e0 rest, m ≠ ⊥)
+    (hne : specScores logOpsBot inp (aget (maximize logOpsBot inp es)) e0 rest ≠ []) :
+    IsFirstArgmax (specScores logOpsBot inp (aget (maximize logOpsBot inp es)) e0 rest)
+      (aget (maximize logOpsBot inp es) e0.c) := by
+  rw [max_rule logOpsBot logOpsBot_laws inp es hv hr e0 rest hg hfix
+    (fun m hm => scalable_bot m (hfin m hm))]
+  exact argmax_isFirst _ hne
+
+end LogBot
 
 /-! ### Non-vacuity: two trees, child 2 has the two parents 3 and 4 (4 is also 3's parent);
 grid of 3 timepoints; the hypotheses hold and the model assigns 4 ↦ 2, 3 ↦ 1, 2 ↦ 0. -/
